@@ -214,6 +214,7 @@ func checkC17(c *Check) {
 	c.Ob("R4", "reader accepts every key length the writer can produce", rd.Pos(), rmin >= 0 && rmin <= wmin, "reader panics for keys shorter than "+itoa(rmin)+" bytes but the writer produces "+itoa(wmin)+"-byte keys (serial number 0 encodes to no bytes): listing then panics")
 	c.Ob("R4", "reader slices the serial at the writer's boundary", rd.Pos(), sliceAt == wmin, "serial read from offset "+itoa(sliceAt)+", written at "+itoa(wmin))
 	c.keyLayoutsRule("R4", []string{kpkg}, 1, 0)
+	c.serialBaseRule("R4")
 
 	// ---- R5 panics
 	np := 0
@@ -381,4 +382,37 @@ func checkC17(c *Check) {
 		}
 	}
 	c.Ob("R6", "by-id lookup filters on the stored state", q.Pos(), okid, "")
+}
+
+// serialBaseRule: the decimal text of a certificate serial is parsed with the base it is rendered in.
+// Every (*big.Int).SetString / Text / Format-with-base call in the cert module's non-client packages
+// uses the constant base 10 ((*big.Int).String() is decimal by definition).
+func (c *Check) serialBaseRule(rule string) {
+	l := c.L
+	n := 0
+	for _, rel := range []string{"x/cert/types", "x/cert/keeper", "x/cert/handler", "x/cert/utils"} {
+		if l.ByPath[akash+"/"+rel] == nil {
+			continue
+		}
+		for _, fn := range l.pkgFuncs(rel) {
+			for _, call := range callsIn(fn, false) {
+				full := calleeFull(call)
+				var base ssa.Value
+				switch full {
+				case "(*math/big.Int).SetString":
+					base = userArgs(call)[1]
+				case "(*math/big.Int).Text":
+					base = userArgs(call)[0]
+				default:
+					continue
+				}
+				n++
+				k, ok := constInt(base)
+				c.Ob(rule, fnName(fn)+": certificate serial text uses base 10", call.Pos(), ok && k == 10, "serial converted with base "+Sym(base)+" while ids are rendered and validated in decimal: two different texts can name one certificate, or a validated id resolves to another serial")
+			}
+		}
+	}
+	if n < 3 {
+		c.Fail("%s lost instances: %d serial conversions", rule, n)
+	}
 }
